@@ -624,7 +624,16 @@ func c11clients(c *Ctx, fl *featLab) {
 			// tiny and degenerate bodies: what http.Error(w, "", code) or a proxy writes
 			{"newline", []byte("\n"), "text/plain; charset=utf-8"}, {"crlf", []byte("\r\n"), "application/json"}, {"spaces", []byte("  \t "), "application/json"}, {"one-byte", []byte("{"), "application/json"},
 			{"bom-json", append([]byte("\xef\xbb\xbf"), valid...), "application/json"}, {"leading-space-json", append([]byte(" \n"), valid...), "application/json"}, {"empty-object", []byte("{}"), "application/json"},
-			{"zero-byte", []byte{0}, "application/x-protobuf"}, {"json-number", []byte("42"), "application/json"}}
+			{"zero-byte", []byte{0}, "application/x-protobuf"}, {"json-number", []byte("42"), "application/json"},
+			// content types a proxy, a file server or another API style answers with (long vendor types, +json
+			// suffixes, parameters, upper case), with bodies that are and are not JSON
+			{"html/long-vendor-ct", []byte("<html>moved</html>"), "application/vnd.openxmlformats-officedocument.spreadsheetml.sheet"},
+			{"empty/long-vendor-ct", nil, "application/vnd.oasis.opendocument.spreadsheet"},
+			{"garbage/very-long-ct", []byte("PK\x03\x04"), "application/" + strings.Repeat("a.b-c+d", 14)},
+			{"valid-json/problem+json-ct", valid, "application/problem+json"}, {"truncated-json/vnd+json-ct", valid[:len(valid)/2], "application/vnd.api+json"},
+			{"valid-json/upper-case-ct", valid, "APPLICATION/JSON; CHARSET=UTF-8"}, {"valid-json/text-plain-ct", valid, "text/plain"},
+			{"valid-json/ct-with-many-parameters", valid, "application/json; charset=utf-8; " + strings.Repeat("p=q; ", 60) + "z=\"a;b\""},
+			{"garbage/ct-only-slash", []byte("x"), "/"}, {"garbage/ct-many-slashes", []byte("x"), strings.Repeat("a/", 40) + "json"}}
 		for _, st := range statuses {
 			for bi, b := range bodies {
 				if !c.Thorough() && (st+bi+int(c.Seed))%3 != 0 && !(st == 200 || st == 400 || st == 500) {
